@@ -68,7 +68,7 @@ fn(A + ".protocol_send", params={"event": _ev.IO_EVENTS}, model_opts=VIEWS,
        # (trio's send_all waits by itself)
        ("C08.send.waits-for-transport", "implies(isinstance(event, RawData) and 'write' in net_ops() and not any(o.startswith('error:') for o in net_ops()), "
         "len(net_ops()) >= 2 and net_ops()[0] == 'write' and net_ops()[1] == 'drain')", "C08,C16"),
-   ], props=("C16", "C07", "C03", "C06", "C08", "C15"))
+   ], props=("C04", "C16", "C07", "C03", "C06", "C08", "C15"))
 
 fn(A + "._close", params={}, model_opts=VIEWS,
    ensures=[
@@ -76,7 +76,7 @@ fn(A + "._close", params={}, model_opts=VIEWS,
        ("C07.close.transport", "'close' in net_ops()", "C07,C16,C06"),
        ("C07.close.timer-stopped", "call_index('AsyncioSingleTask.stop') >= 0", "C07,C16"),
    ],
-   props=("C07", "C16"))
+   props=("C04", "C07", "C16"))
 
 fn(A + "._read_data", params={}, model_opts=VIEWS,
    requires=[("read.pre.running", "has(self, 'protocol') and value_of(self, 'protocol').g_initiated and not value_of(self, 'protocol').g_eof_fed"),
@@ -94,13 +94,13 @@ fn(A + "._read_data", params={}, model_opts=VIEWS,
        # C07.finally: whatever ended the loop, the protocol is told last that the connection is gone
        ("C07.read.closed-last", "n_after_gap('calls') >= 1 and after_gap('calls')[-1][0] == 'ProtocolPort.handle' and isinstance(after_gap('calls')[-1][2], Closed)", "C07,C16"),
    ],
-   props=("C16", "C07"))
+   props=("C04", "C16", "C07"))
 
 fn(A + "._initiate_server_close", params={}, model_opts=VIEWS,
    requires=[("isc.pre.running", "has(self, 'protocol') and value_of(self, 'protocol').g_initiated")],
    ensures=[("C07.timeout.closes", HANDLE_CLOSED + " and 'close' in net_ops()", "C07,C15"),
             ("C16.single-feeder", "not trace_any('calls', 'c', c[0] == 'ProtocolPort.handle' and isinstance(c[2], RawData))", "C16")],
-   props=("C07", "C15"))
+   props=("C04", "C07", "C15"))
 
 fn(A + "._idle_timeout", params={}, model_opts=dict(VIEWS, clock=True),
    requires=[("idle.pre.running", "has(self, 'protocol') and value_of(self, 'protocol').g_initiated"),
@@ -113,7 +113,7 @@ fn(A + "._idle_timeout", params={}, model_opts=dict(VIEWS, clock=True),
        ("C07.timer.not-late", "call_time('TCPServer._initiate_server_close') <= clock0() + self.config.keep_alive_timeout", "C07,C15,C16"),
        ("C07.timer.not-early", "call_time('TCPServer._initiate_server_close') == clock0() + self.config.keep_alive_timeout or self.context.terminated.flag", "C07,C15,C16"),
    ],
-   props=("C07", "C15"))
+   props=("C04", "C07", "C15"))
 
 RUN_CLAUSES = lambda single: [
     # C07.finally: the transport is closed on every way out of run()
@@ -139,7 +139,7 @@ fn(A + ".run", params={}, model_opts=VIEWS,
         # ... and under TLS exactly what was negotiated (nothing negotiated = HTTP/1.x, not a server-side preference)
         "implies(self.writer.ssl_object is not None, call_args('ProtocolWrapper.__init__')[10] == self.writer.ssl_object.selected_alpn_protocol()))", "C13,C16"),
    ],
-   props=("C07", "C16", "C14", "C13"))
+   props=("C04", "C07", "C16", "C14", "C13"))
 
 # ------------------------------------------------------------------------------------ trio
 T = "hypercorn.trio.tcp_server:TCPServer"
@@ -150,7 +150,7 @@ cls(T, fields=dict(COMMON_FIELDS, stream="obj trio:Stream", send_lock="obj trio:
 
 fn(T + ".protocol_send", params={"event": _ev.IO_EVENTS}, model_opts=VIEWS,
    requires=[("send.pre.running", "has(self, 'protocol') and has(self, '_task_group') and value_of(self, 'protocol').g_initiated and value_of(self, '_task_group')._nursery is not None")],
-   ensures=send_clauses("TrioSingleTask"), props=("C16", "C07", "C03", "C06", "C08", "C15"))
+   ensures=send_clauses("TrioSingleTask"), props=("C04", "C16", "C07", "C03", "C06", "C08", "C15"))
 
 fn(T + "._close", params={}, model_opts=VIEWS,
    ensures=[
@@ -158,7 +158,7 @@ fn(T + "._close", params={}, model_opts=VIEWS,
        # (the asyncio class stops the keep-alive timer here; the trio class does not: finding F7d
        # is stated where it matters, at the join in run())
    ],
-   props=("C07", "C16"))
+   props=("C04", "C07", "C16"))
 
 fn(T + "._read_data", params={}, model_opts=VIEWS,
    requires=[("read.pre.running", "has(self, 'protocol') and value_of(self, 'protocol').g_initiated and not value_of(self, 'protocol').g_eof_fed"),
@@ -173,13 +173,13 @@ fn(T + "._read_data", params={}, model_opts=VIEWS,
    ensures=[
        ("C07.read.closed-last", "n_after_gap('calls') >= 1 and after_gap('calls')[-1][0] == 'ProtocolPort.handle' and isinstance(after_gap('calls')[-1][2], Closed)", "C07,C16"),
    ],
-   props=("C16", "C07"))
+   props=("C04", "C16", "C07"))
 
 fn(T + "._initiate_server_close", params={}, model_opts=VIEWS,
    requires=[("isc.pre.running", "has(self, 'protocol') and value_of(self, 'protocol').g_initiated")],
    ensures=[("C07.timeout.closes", HANDLE_CLOSED + " and 'aclose' in net_ops()", "C07,C15"),
             ("C16.single-feeder", "not trace_any('calls', 'c', c[0] == 'ProtocolPort.handle' and isinstance(c[2], RawData))", "C16")],
-   props=("C07", "C15"))
+   props=("C04", "C07", "C15"))
 
 fn(T + "._idle_timeout", params={}, model_opts=dict(VIEWS, clock=True),
    requires=[("idle.pre.running", "has(self, 'protocol') and value_of(self, 'protocol').g_initiated"),
@@ -190,7 +190,7 @@ fn(T + "._idle_timeout", params={}, model_opts=dict(VIEWS, clock=True),
        ("C07.timer.not-late", "call_time('TCPServer._initiate_server_close') <= clock0() + self.config.keep_alive_timeout", "C07,C15,C16"),
        ("C07.timer.not-early", "call_time('TCPServer._initiate_server_close') == clock0() + self.config.keep_alive_timeout or self.context.terminated.flag", "C07,C15,C16"),
    ],
-   props=("C07", "C15"))
+   props=("C04", "C07", "C15"))
 
 fn(T + ".run", params={}, model_opts=VIEWS,
    requires=[("run.pre.once", "not has(self, 'protocol') and not has(self, '_task_group') and self.idle_task.g_live == 0"),
@@ -202,4 +202,4 @@ fn(T + ".run", params={}, model_opts=VIEWS,
         "call_args('ProtocolWrapper.__init__')[6] == self.stream.is_ssl and implies(not self.stream.is_ssl, call_args('ProtocolWrapper.__init__')[10] == 'http/1.1') "
         "and implies(self.stream.is_ssl, call_args('ProtocolWrapper.__init__')[10] == self.stream.alpn))", "C13,C16"),
    ],
-   props=("C07", "C16", "C14", "C13"))
+   props=("C04", "C07", "C16", "C14", "C13"))
